@@ -34,7 +34,7 @@ const struct option longOpts[] = {
 短选项设置
 */
 const char shortOpts[] = "edvVhni:o:k:m:";
-char fout[128];
+std::string fout;
 /*################################
   辅助函数
 ################################*/
@@ -119,7 +119,7 @@ bool parseOpts(char c, vpak_t *res)
         break;
     case 'i':
         res->fp = fopen(optarg, "rb");
-        sprintf(fout, "%s.wenc", optarg);
+        fout = std::string(optarg) + ".wenc";
         try
         {
             auto fileSize = std::filesystem::file_size(optarg);
@@ -222,7 +222,7 @@ return:vpak_t结构体指针x
 u8_t *get_v_opt(int argc, char *argv[])
 {
     srand((unsigned)time(NULL));
-    memset(fout, 0, sizeof(fout));
+    fout.clear();
     int option_index = 0;
     optind = 0; // 0 (not 1) makes glibc re-initialise its scanner, including the position inside a clustered short option
     vpak_t *res = new vpak_t;
@@ -288,10 +288,37 @@ u8_t *get_v_opt(int argc, char *argv[])
         if (res->out == NULL)
         {
             strlog("Note :", "Using default output file name");
-            res->out = fopen(fout, "wb+");
+            res->out = fopen(fout.c_str(), "wb+");
+            if (res->out == NULL)
+            {
+                strlog("Error :", "Could not open file " + fout);
+                delete res;
+                return NULL;
+            }
         }
         getRandomBuffer(res->r_buf);
         printkey(res->key);
+    }
+    else if (res->mode == 'd' || res->mode == 'v')
+    {
+        if (res->fp == NULL)
+        {
+            strlog("Error :", "No file specified");
+            delete res;
+            return NULL;
+        }
+        if (res->key == NULL)
+        {
+            strlog("Error :", "No key specified");
+            delete res;
+            return NULL;
+        }
+        if (res->mode == 'd' && res->out == NULL)
+        {
+            strlog("Error :", "No output file specified");
+            delete res;
+            return NULL;
+        }
     }
     return res->buf;
 }
